@@ -150,6 +150,29 @@ def run(ctx):
     ef = es.func("Electronic_Structure.forward")
     from ..assembly import check_charges_and_dipole
     check_charges_and_dipole(ctx, "R4")
+    # every evaluation that publishes a new density also publishes the charges that belong to it: on every path from a store to molecule.dm to the end of the call there
+    # is a store to molecule.q (SCF and XL-BOMD evaluations alike)
+    from ..cfg import build_cfg
+    g_es = build_cfg(ef)
+
+    def _stores(attr):
+        out = []
+        for n_ in g_es.nodes:
+            if n_.kind == "stmt" and isinstance(n_.stmt, (ast.Assign, ast.AugAssign)):
+                tg = n_.stmt.targets if isinstance(n_.stmt, ast.Assign) else [n_.stmt.target]
+                flat = [e_ for t_ in tg for e_ in (t_.elts if isinstance(t_, ast.Tuple) else [t_])]
+                if any(norm(e_) == attr for e_ in flat):
+                    out.append(n_)
+        return out
+    dm_st, q_st = _stores("molecule.dm"), _stores("molecule.q")
+    if not dm_st or not q_st:
+        raise AnalysisError("Electronic_Structure.forward: stores to molecule.dm / molecule.q not found")
+    for n_ in dm_st:
+        ok_ = g_es.must_pass(n_.id, g_es.exit_return, {x.id for x in q_st}) if g_es.exit_return in g_es.reachable(n_.id) else True
+        ctx.check(ok_, "R4", es, n_.stmt, "Electronic_Structure.forward", f"charges after `{short(n_.stmt, 40)}`",
+                  "the atomic charges are recomputed on every path after the reported density is replaced",
+                  f"after `{short(n_.stmt, 70)}` a path reaches the end of the call without recomputing molecule.q: the reported charges belong to an earlier density "
+                  f"(e.g. the last SCF geometry during XL-BOMD) while density, energies and dipole are current")
     dm = [st for st in ast.walk(ef) if isinstance(st, ast.Assign) and norm(st.targets[0]) == "molecule.dm"]
     ctx.check(bool(dm) and norm(dm[0].value) == "P.detach()", "R4", es, dm[0] if dm else ef, "Electronic_Structure.forward", "molecule.dm", "reported density is the density returned by the force driver",
               "molecule.dm is not the returned density")
